@@ -904,6 +904,43 @@ func TestVerifE7Identity(t *testing.T) {
 			}
 		}
 	}
+	// route x method product (audit C34): every registered path under every method, registered or not, from an admin
+	// and from somebody else; and every mutating route x identity in direct-nsqd mode
+	direct3 := vfE7World{nsqds: []string{"N0", "N1", "N2"}}
+	seenPath := map[string]bool{}
+	for _, r := range routes {
+		if strings.HasPrefix(r[2], "expr:") || seenPath[r[1]] {
+			continue
+		}
+		seenPath[r[1]] = true
+		for _, m := range []string{"GET", "POST", "PUT", "DELETE", "PATCH", "HEAD", "OPTIONS"} {
+			for _, who := range []string{"mallory", "alice"} {
+				variant++
+				segs := vfE7Instantiate(r[1], "t1", "c1", "N0", "base.css", "log_level")
+				w := vfE7AllUp
+				if variant%3 == 0 {
+					w = direct3
+				}
+				e.run(vfE7Case{method: m, segs: segs, users: []string{"alice"}, acl: "X-Forwarded-User",
+					sendHdrs: [][2]string{{"X-Forwarded-User", who}}, cidr: "127.0.0.1/8", body: vfE7BodyFor(m, segs, variant), world: w})
+				e.hist["product:"+m]++
+			}
+		}
+	}
+	for _, r := range routes {
+		if r[0] == "GET" || strings.HasPrefix(r[2], "expr:") || strings.HasPrefix(r[1], "/config") {
+			continue
+		}
+		for _, users := range adminLists {
+			for _, id := range idents {
+				variant++
+				segs := vfE7Instantiate(r[1], "t1", "c1", []string{"N0", "N1", "X0"}[rng.Intn(3)], "base.css", "log_level")
+				e.run(vfE7Case{method: r[0], segs: segs, users: users, acl: "X-Forwarded-User", sendHdrs: id.hdrs("X-Forwarded-User"),
+					cidr: "127.0.0.1/8", body: vfE7BodyFor(r[0], segs, variant), world: direct3, notify: variant%2 == 0})
+				e.hist["direct-mode-identity"]++
+			}
+		}
+	}
 	// ACL header names that are not RFC 7230 tokens (a space, a non-ASCII letter): CanonicalMIMEHeaderKey leaves them
 	// alone, so only a map key spelled exactly like the option matches (audit C17). Off the wire only.
 	for _, r := range routes {
